@@ -20,6 +20,7 @@ func (rw *rewriter) run() {
 	if rw.rules["go"] != "" || rw.rules["chan"] != "" {
 		rw.rewriteConc()
 	}
+	if rw.rules["maprange"] != "" { rw.rewriteMapRange() }
 }
 
 func (rw *rewriter) rewriteNumCPU() {
@@ -46,4 +47,3 @@ func (rw *rewriter) rewriteNumCPU() {
 	})
 }
 
-func (rw *rewriter) rewriteConc() {}
